@@ -1,6 +1,7 @@
 import Grexv.Model.Format
 import Grexv.Lemmas.AsciiPipeline
 import Grexv.Lemmas.Stages
+import Grexv.Lemmas.EndToEnd
 
 /-!
 # C11 — non-ASCII escaping is complete, well-formed and reversible (character level and whole pattern)
@@ -122,6 +123,29 @@ theorem output_ascii (cfg : Config) (hesc : cfg.esc = true) (hrep : cfg.rep = fa
     intro e he
     obtain ⟨c, _, rfl⟩ := List.mem_map.mp he
     trivial
+
+/-- **C11 (reversible) for the model, all inputs without `-r`** for every subset of the class options, with or without
+capturing groups and the case-insensitive option: the text returned with `-e` (no surrogate pairs) and the text returned
+without are both accepted by the model of `Regex::new` — which decodes each `\u{…}` to its code point (`step_hex`) —
+and the two compiled patterns match exactly the same strings of scalar values in full -/
+theorem escapes_decode_to_same_language (cfg : Config) (hp : PlainPrintCI cfg) (env : Env) (ws : List Str)
+    (stE st0 : Stages) (hE : regExpFrom (withEsc cfg true) env ws = .ok stE)
+    (h0 : regExpFrom (withEsc cfg false) env ws = .ok st0)
+    (hseg : ∀ w ∈ storedCases cfg env ws, SegOK env w) (hne : ∃ t ∈ storedCases cfg env ws, t ≠ [])
+    (s : Str) (hs : ∀ c ∈ s, Scalar c) :
+    ∃ PE P0, Spec.parse (fmtRegExp (withEsc cfg true) stE.finalAst) = some (⟨cfg.ci, false⟩, PE) ∧
+      Spec.parse (fmtRegExp (withEsc cfg false) st0.finalAst) = some (⟨cfg.ci, false⟩, P0) ∧
+      Spec.fullMatch cfg.ci PE s = Spec.fullMatch cfg.ci P0 s :=
+  esc_same_language cfg hp env ws stE st0 hE h0 hseg hne s hs
+
+/-- the hexadecimal text of an escape is read back as the code point it was written for -/
+theorem escape_round_trip (n : Nat) (hn : Spec.isScalar n = true) (h : 128 ≤ n) (rest : List Nat) :
+    Spec.parseEscape false ((Expr.escapeChar n false).tail ++ rest) = some (Spec.Prim.lit n, rest) := by
+  rw [escapeChar_plain n h]
+  have : ([92, 117, 123] ++ toHex n ++ [125]).tail ++ rest = 117 :: 123 :: (toHex n ++ 125 :: rest) := by
+    simp
+  rw [this]
+  exact parseEscape_hex n hn rest
 
 /-! non-vacuity -/
 example : Expr.escapeChar 0x1F4A9 true = strOf "\\u{d83d}\\u{dca9}" := by decide
